@@ -138,5 +138,74 @@ func TestVerifC16Keys(t *testing.T) {
 		}
 	}
 	c.Close()
+
+	// ... and LOOKUPS in that cache follow the same order: for caches holding a prefix of the sorted names (so that every
+	// name is the greatest cached one once), the cache's answer for the search key of (table, key) is the greatest cached
+	// name that is not above the key in the specification's (component-wise) order
+	tupleCmp := func(t1, s1, i1, t2, s2, i2 []byte) int {
+		if c := bytes.Compare(t1, t2); c != 0 {
+			return c
+		}
+		if c := bytes.Compare(s1, s2); c != 0 {
+			return c
+		}
+		return bytes.Compare(i1, i2)
+	}
+	var uniq []nm
+	for _, n := range sorted {
+		if len(uniq) == 0 || !bytes.Equal(flat(uniq[len(uniq)-1]), flat(n)) {
+			uniq = append(uniq, n)
+		}
+	}
+	type tup struct{ t, s, i, flat []byte }
+	tups := make([]tup, len(uniq))
+	tups = tups[:0]
+	for _, n := range uniq {
+		if string(b(n.ID)) == ":" { // (the id of search keys: a cached name equal to a search key is not a state of the cache)
+			continue
+		}
+		tups = append(tups, tup{b(n.Table), b(n.Start), b(n.ID), flat(n)})
+	}
+	type skey struct{ t, k, bytes []byte }
+	skeys := make([]skey, len(cases))
+	for k, cs := range cases {
+		skeys[k] = skey{b(cs.Table), b(cs.Key), b(cs.Bytes)}
+	}
+	lookups := 0
+	c2 := newClient("zk.invalid:2181", Logger(discardLogger))
+	failed := false
+	for j := 0; j < len(tups) && !failed; j++ { // the cache grows by one name (the new greatest one) per round
+		c2.regions.regions.Set(tups[j].flat, region.NewInfo(1, nil, tups[j].t, tups[j].flat, tups[j].s, nil))
+		for _, sk := range skeys {
+			// the greatest of tups[0..j] below the search key (binary search: tups is sorted in the specification's order)
+			lo, hi := 0, j+1
+			for lo < hi {
+				mid := (lo + hi) / 2
+				if tupleCmp(tups[mid].t, tups[mid].s, tups[mid].i, sk.t, sk.k, []byte(":")) < 0 {
+					lo = mid + 1
+				} else {
+					hi = mid
+				}
+			}
+			if lo <= j && tupleCmp(tups[lo].t, tups[lo].s, tups[lo].i, sk.t, sk.k, []byte(":")) == 0 {
+				continue // (the cache treats an exact match of a search key as impossible)
+			}
+			var exp []byte
+			if lo > 0 {
+				exp = tups[lo-1].flat
+			}
+			gotK, _ := c2.regions.get(sk.bytes)
+			lookups++
+			if !bytes.Equal(gotK, exp) {
+				rep.bad("client-cache-lookup-order", "a cache holding the %d smallest names of the scope (greatest: %q) answers the search key %q with %q; "+
+					"the greatest cached name not above it in the specification's order is %q", j+1, tups[j].flat, sk.bytes, gotK, exp)
+				failed = true
+				break
+			}
+		}
+	}
+	c2.Close()
+	rep.Scenarios += lookups
+	rep.Extra["cache_lookups"] = lookups
 	_ = fmt.Sprint
 }
